@@ -507,6 +507,37 @@ def run(repo: Repo, rep: Report, tier: str) -> None:
                           f"every IRConst is admitted ({[g for g, p in gs14 if p][:1]}): `Bundle r = {{(\"signal-A\", 5), (\"signal-B\", 2)}} * 2;` is folded to signal-each = 0 with optimisation on", m14.loc(st))
     rep.floor("C10-R14", "admissions to the constant table", n14, 1)
 
+    # ---------------- R15 --------------------------------------------------------------
+    rep.rule("C10-R15", "the common-subexpression key of a decider reads, on each of its return paths, every field that the builders of that kind of decider set: a field set by "
+             "IRBuilder.decider / bundle_decider / bundle_gating_decider (single condition) is in the single-condition key, a field set by decider_multi in the multi-condition key — "
+             "reading it on the other path only merges nodes that differ in it")
+    from .util import canon as _canon15, cguards as _cg15
+    bld15 = repo.cls("IRBuilder")
+    setters: dict[str, set[str]] = {"single": set(), "multi": set()}
+    for m15 in bld15.methods.values():
+        news = [n for n in walk_local(m15.node) if isinstance(n, ast.Assign) and isinstance(n.value, ast.Call) and call_name(n.value) == "IRDecider" and isinstance(n.targets[0], ast.Name)]
+        if not news:
+            continue
+        var15 = news[0].targets[0].id
+        attrs15 = {n.targets[0].attr for n in walk_local(m15.node) if isinstance(n, ast.Assign) and isinstance(n.targets[0], ast.Attribute) and isinstance(n.targets[0].value, ast.Name) and n.targets[0].value.id == var15}
+        multi = any(isinstance(c, ast.Call) and call_name(c) == "append" and norm(c.func.value) == f"{var15}.conditions" for c in ast.walk(m15.node))
+        setters["multi" if multi else "single"] |= attrs15 | ({"conditions"} if multi else set())
+    for kf in keyfns:
+        ck = _canon15(kf)
+        for var in _ladder_vars(kf, ir_names):
+            for br in ladder(kf, var):
+                if "IRDecider" not in br.classes:
+                    continue
+                rets15 = [n for part in br.region for n in ([part] if isinstance(part, ast.Return) else [x for x in ast.walk(part) if isinstance(x, ast.Return)]) if n.value is not None and not (isinstance(n.value, ast.Constant))]
+                for r15 in rets15:
+                    mode = "multi" if any(pol and g.endswith(".conditions") for g, pol in _cg15(kf, r15)) else "single"
+                    txt = ck.text(r15.value)
+                    reads15 = {a for a in setters[mode] if re.search(rf"\b{var}\.{a}\b", txt) or (a == "conditions" and ".conditions" in txt)}
+                    missing15 = sorted(setters[mode] - reads15 - IDENTITY_FIELDS - {"debug_metadata", "debug_label", "source_ast", "conditions"})  # rows: C10-R3
+                    rep.check(not missing15, "C10-R15", f"{kf.short}: the {mode}-condition decider key reads every field its builders set", f"reads {sorted(reads15)}" if not missing15 else
+                              f"{missing15} set by the builders is not in this key: `(b > 0) : b` and `(b > 0) : 1` (copy the value / output a constant) get one key and are merged", kf.loc(r15))
+    rep.analysed["C10-R15:fields set by the decider builders"] = {k: sorted(v) for k, v in setters.items()}
+
 
 
 def thorough(repo: Repo, rep: Report) -> None:
